@@ -70,3 +70,18 @@ package extract
 //@   requires [assume] 0 <= j && j < len(results)
 //@   ensures result-name-and-type: results[j] == sign.Results().At(j).Name() + " " + types.TypeString(sign.Results().At(j).Type(), qualify)
 //@   ensures other-entries-untouched: forall(k, 0, len(results), k != j ==> results[k] == old(results[k]))
+
+// The build-tag line of a generated file: the release it was generated with (go1.N), and, unless that is
+// the newest release the tool knows, the exclusion of the next one (go1.N,!go1.N+1) — so that each
+// release selects exactly its own set of files.  Development versions are refused.
+//@ func genBuildTags() (tags, err)
+//@   props C18
+//@   opt safety = off
+//@   opt opaque-calls = *
+//@   opt opaque-havoc = none
+//@   opt inline = GetMinor
+//@   ensures [local:version] development-versions-are-refused: strings.HasPrefix(version, "devel") ==> err != nil
+//@   ensures [local:minor] minor-is-the-number-after-the-first-dot: err == nil ==> minor == atoiVal(minorRaw) && atoiErr(minorRaw) == nil
+//@   ensures [local:minor] newest-release-has-no-upper-bound: err == nil && minor >= defaultMinorVersion ==> tags == parts[0] + "." + minorRaw
+//@   ensures [local:minor] earlier-release-excludes-the-next-one: err == nil && minor < defaultMinorVersion ==> tags == parts[0] + "." + minorRaw + ",!" + parts[0] + "." + strconv.Itoa(minor + 1)
+//@   canary err == nil
